@@ -58,7 +58,11 @@ func startServer(file string, cache bool, preload bool) *server {
 		if err := s.cmd.Start(); err != nil {
 			infra("start server: %v", err)
 		}
-		go func() { err := s.cmd.Wait(); s.exitS = fmt.Sprintf("%v: %s", err, trunc(errb.String(), 600)); close(s.done) }()
+		go func() {
+			err := s.cmd.Wait()
+			s.exitS = fmt.Sprintf("%v: %s", err, trunc(errb.String(), 600))
+			close(s.done)
+		}()
 		conn, err := grpc.NewClient(s.addr, grpc.WithTransportCredentials(insecure.NewCredentials()))
 		if err != nil {
 			infra("grpc client: %v", err)
@@ -162,8 +166,12 @@ func runSrvCase(o *Oracle, c *SrvCase, rep *Report) {
 	}
 	defer os.Remove(path)
 	o.Send("idx reset")
-	for _, r := range rows {
-		o.Send(rowLine(r))
+	{
+		var lines []string
+		for _, r := range rows {
+			lines = append(lines, rowLine(r))
+		}
+		o.SendMany(lines)
 	}
 	o.Send("idx build fast")
 	s := startServer(path, c.Cache, c.Preload)
@@ -569,8 +577,12 @@ func runC14(rep *Report, r *Rng, tier string) {
 		infra("build: %v", err)
 	}
 	o.Send("idx reset")
-	for _, rw := range rows {
-		o.Send(rowLine(rw))
+	{
+		var lines []string
+		for _, rw := range rows {
+			lines = append(lines, rowLine(rw))
+		}
+		o.SendMany(lines)
 	}
 	o.Send("idx build fast")
 	idx, _, err := openIdx(path, false, -1)
@@ -721,8 +733,12 @@ func init() {
 		path := scratch("c14r.updog")
 		buildIndexFile("mem", rows, path)
 		o.Send("idx reset")
-		for _, rw := range rows {
-			o.Send(rowLine(rw))
+		{
+			var lines []string
+			for _, rw := range rows {
+				lines = append(lines, rowLine(rw))
+			}
+			o.SendMany(lines)
 		}
 		o.Send("idx build fast")
 		idx, _, err := openIdx(path, false, -1)
@@ -735,7 +751,6 @@ func init() {
 		runHostileCase(o, &c, rep, srv, idx)
 	}
 }
-
 
 // burstOnFreshServer sends the probe from 8 clients at the same time to a server that has not answered a grouped
 // query yet; every answer must be the sequential one and the process must survive.
